@@ -65,9 +65,20 @@ def setup(vm):
     vm.spec.attr_hooks.pop(("SymbolicExpression", "_name_"), None)
     vm.loader.add_module("pyvc_synth_c10", SYNTH)
     vm.spec.attr_hooks[("Attribute", "_wrapped_owner_class_")] = lambda it, o: None
-    vm.spec.attr_hooks[("Attribute", "_wrapped_field_")] = lambda it, o: None
+    # the class diagram is abstracted: every attribute has a scalar wrapped field of unknown type
+    scalar_field = vm.alloc(vm.ext("object"), {"is_iterable": False, "type_endpoint": None, "is_optional": False}, tag="wrapped-field")
+    vm.spec.attr_hooks[("Attribute", "_wrapped_field_")] = lambda it, o: scalar_field
     vm.spec.attr_hooks[("Attribute", "_relation_")] = lambda it, o: None
     vm.spec.attr_hooks[("Attribute", "_wrapped_type_")] = lambda it, o: None
+    # assumed contract of inspect.signature (as in C12): the ordered parameter names of that callable
+    from . import C12 as _C12
+
+    def signature(it, fr, a, k):
+        o = it.alloc(it.ext("object"), {}, tag="signature")
+        o.fields["parameters"] = make_dict([(n, None) for n in _C12.names_of(it, a[0])])
+        return o
+    vm.builtins = dict(vm.builtins)
+    vm.builtins["inspect.signature"] = Builtin("inspect.signature", signature)
     SE = vm.loader.cls(SYM, "SymbolicExpression")
     SE.class_attr_vals["_symbolic_expression_stack_"] = PyList([])
     SE.class_attr_vals["_id_expression_map_"] = make_dict([])
@@ -109,12 +120,31 @@ def builders(vm, Thing):
            ("not_(literal)", lambda: vm.call(g(vm, ENT, "not_"), [UserVal("flag")], {})),
            ("exists / for_all", lambda: vm.call(g(vm, ENT, "for_all"), [y, vm.call(g(vm, ENT, "exists"), [x, vm.equals(vm._getattr(x, "a"), vm._getattr(y, "a"))], {})], {})),
            ("inference(T)(a=x.a, b=literal)", lambda: vm.call(vm.call(g(vm, ENT, "inference"), [Thing], {}), [], {"a": vm._getattr(x, "a"), "b": lit})),
+           ("entity_matching(T, user-iterable)(a=variable-over-user-iterable)", lambda: vm.call(g(vm, "krrood.entity_query_language.quantify_entity", "an"),
+               [vm.call(vm.call(g(vm, "krrood.entity_query_language.match", "entity_matching"), [Thing, UserVal("domain3", iterable=True)], {}), [], {"a": x, "b": lit})], {})),
+           ("entity_matching(T, user-iterable)(a=match(T)(b=variable))", lambda: vm.call(g(vm, "krrood.entity_query_language.quantify_entity", "an"),
+               [vm.call(vm.call(g(vm, "krrood.entity_query_language.match", "entity_matching"), [Thing, UserVal("domain4", iterable=True)], {}), [],
+                        {"a": vm.call(vm.call(g(vm, "krrood.entity_query_language.match", "match"), [Thing], {}), [], {"b": y})})], {})),
+           ("with cond: Add(y, user-constant)", lambda: _conclusion(vm, "Add", vm.equals(vm._getattr(x, "a"), lit), y, UserVal("concluded-value"))),
+           ("with cond: Set(y, user-constant)", lambda: _conclusion(vm, "Set", vm.equals(vm._getattr(x, "b"), lit), y, UserVal("assigned-value"))),
+           ("with cond: Add(y, x.a)", lambda: _conclusion(vm, "Add", vm.equals(vm._getattr(x, "a"), lit), y, vm._getattr(x, "a"))),
            ("an(entity(x, cond))", lambda: vm.call(g(vm, "krrood.entity_query_language.quantify_entity", "an"),
                                                 [vm.call(g(vm, ENT, "entity"), [x, vm.equals(vm._getattr(x, "a"), lit)], {})], {})),
            ("the(set_of([x, x.a], cond))", lambda: vm.call(g(vm, "krrood.entity_query_language.quantify_entity", "the"),
                                                           [vm.call(g(vm, ENT, "set_of"), [PyList([x, vm._getattr(x, "a")]), vm.equals(vm._getattr(y, "a"), lit)], {})], {})),
            ]
     return out
+
+
+def _conclusion(vm, kind, cond, var, value):
+    """a conclusion written inside `with <condition>:` (the stack discipline of __enter__ / __exit__ is C08's subject)"""
+    SE = vm.loader.cls(SYM, "SymbolicExpression")
+    stack = SE.class_attr_vals["_symbolic_expression_stack_"]
+    stack.items.append(cond)
+    try:
+        return vm.call(vm.loader.cls("krrood.entity_query_language.conclusion", kind), [var, value], {})
+    finally:
+        stack.items.pop()
 
 
 def h_construction():
@@ -252,17 +282,61 @@ def h_streaming_flatten():
         vm.spec.opaque_hooks["iter_value"] = iter_value
         vm.spec.opaque_hooks["to_list"] = to_list
         vm.spec.opaque_hooks["collect_stream"] = lambda it, s, kind: (log.append("copied"), PyList([]))[1]
+        vm.spec.opaque_hooks["havoc_container"] = lambda it, old, what: AnySeq(what, lambda it2: UserVal("remembered-element"))
+        vm.spec.opaque_hooks["havoc_value"] = lambda it, old, what: AnySeq(what, lambda it2: UserVal("remembered-element")) if isinstance(old, (PyList, PySet)) else None
         HV = vm.loader.cls(HD, "HashedValue")
         node = vm.alloc(vm.loader.cls(SYM, "Flatten"), {"_id_": 10, "_is_false_": False}, tag="Flatten")
         value = vm.alloc(HV, {"value": inner, "id_": 7}, tag="hashed-value")
         n = 0
-        for out in vm.iterate(vm.call_method(node, "_apply_mapping_", value)):
+        from pyvc.ctx import PathEnd as _PathEnd
+        pulled_before = len([x for x in ctx.notes if x[0] == "iter" and x[2] == "inner-elements"])
+
+        def outputs():
+            it_ = vm.iterate(vm.call_method(node, "_apply_mapping_", value))
+            while True:
+                try:
+                    o_ = next(it_)
+                except StopIteration:
+                    return
+                except _PathEnd:
+                    pulled = len([x for x in ctx.notes if x[0] == "iter" and x[2] == "inner-elements"]) - pulled_before
+                    # the path is cut after an arbitrary element: that element has been reported (every occurrence counts, equal or
+                    # not to an earlier one: elements are told apart by identity, never skipped by ==)
+                    ctx.check("Flatten._apply_mapping_::every-inner-element-is-reported-once", z3.BoolVal(n == pulled), detail=f"{pulled} elements pulled, {n} reported")
+                    raise
+                yield o_
+        for out in outputs():
             n += 1
             ended = [x for x in ctx.notes if x[0] == "exhausted" and x[2] == "inner-elements"]
             ctx.cover("yielded-while-pulling") if not ended else None
             ctx.check("prompt::Flatten._apply_mapping_::no-element-is-held-back-until-the-inner-iterable-has-ended", z3.BoolVal(not ended))
         ctx.check("prompt::Flatten._apply_mapping_::the-inner-iterable-is-not-copied", z3.BoolVal("copied" not in log), detail=repr(log))
     return Harness("streaming-Flatten", run, spec=Spec(), covers=["yielded-while-pulling"], max_paths=400)
+
+
+def h_start_evaluation():
+    """announcing an evaluation to a variable with an explicit domain pulls nothing from that domain (the first results may never
+    need this variable)"""
+    def run(vm):
+        ctx = vm.ctx
+        install_user_hooks(vm)
+        HI = vm.loader.cls(HD, "HashedIterable")
+        pulled = []
+
+        def source():
+            for i in range(3):
+                pulled.append(i)
+                yield UserVal(f"v{i}")
+        hi = vm.call(HI, [GenObj(source(), "user-generator")], {})
+        From = vm.loader.cls(SYM, "From")
+        src = vm.alloc(From, {"domain": hi, "live_type": None}, tag="domain-source")
+        var = vm.alloc(vm.loader.cls(SYM, "Variable"), {"_id_": 5, "_domain_": hi, "_domain_source_": src, "_predicate_type_": None, "_name__": "x",
+                                                       "_child_vars_": make_dict([])}, tag="variable")
+        before = len(user_effects(ctx))
+        vm.call_method(var, "_start_evaluation_")
+        ctx.check("Variable._start_evaluation_::pulls-nothing-from-an-explicit-domain", z3.BoolVal(pulled == [] and len(user_effects(ctx)) == before),
+                  detail=f"pulled {pulled}, effects {user_effects(ctx)[before:]}")
+    return Harness("start-evaluation", run, spec=Spec())
 
 
 def h_hashed_iterable():
@@ -312,5 +386,5 @@ def prompt(h):
 def harnesses():
     from . import C09
     hq = {h.name: h for h in C09.harnesses()}
-    return [h_construction(), h_symbolic_callables(), h_evaluation_discipline(), h_hashed_iterable(), h_streaming_exists(), h_streaming_flatten()] + \
+    return [h_construction(), h_symbolic_callables(), h_evaluation_discipline(), h_hashed_iterable(), h_start_evaluation(), h_streaming_exists(), h_streaming_flatten()] + \
         [prompt(hq[n]) for n in ("an-evaluate[none+var]", "an-evaluate[c+upper+var]") if n in hq] + [h_canary()]
